@@ -188,24 +188,21 @@ where
     cells
 }
 
-/// c-value classes the generator uses
+/// c-value classes: (kind, h, t) with kind "num" | "H" | "T" | "HT"; None = not a supported value.
+/// Integers are whatever Rust's integer parser accepts ("+1", "01", "-1"), pairs are "a,b".
 fn c_params(c: &str) -> Option<(&'static str, i64, i64)> {
-    // (kind, h, t): kind "num" | "H" | "T" | "HT"
     match c {
-        "0" => Some(("num", 0, 0)),
-        "1" => Some(("num", 1, 0)),
-        "2" => Some(("num", 2, 0)),
-        "3" => Some(("num", 3, 0)),
-        "1,1" => Some(("num", 1, 1)),
-        "0,1" => Some(("num", 0, 1)),
-        // integer spellings that Rust's integer parser accepts
-        "+1" | "01" => Some(("num", 1, 0)),
-        "-1" => Some(("num", -1, 0)),
-        "H" => Some(("H", 0, 0)),
-        "0,T" => Some(("T", 0, 0)),
-        "H,T" => Some(("HT", 0, 0)),
-        _ => None,
+        "H" => return Some(("H", 0, 0)),
+        "0,T" => return Some(("T", 0, 0)),
+        "H,T" => return Some(("HT", 0, 0)),
+        _ => {}
     }
+    let int = |s: &str| -> Option<i64> { if s.is_empty() || s.len() > 4 { None } else { s.parse::<i64>().ok() } };
+    if let Some(h) = int(c) {
+        return Some(("num", h, 0));
+    }
+    let (a, b) = c.split_once(',')?;
+    Some(("num", int(a)?, int(b)?))
 }
 
 fn lib_answer(pd: &Pd, ctype: &str, c: &str, reduced: bool) -> Option<Cells> {
@@ -232,7 +229,9 @@ fn lib_answer(pd: &Pd, ctype: &str, c: &str, reduced: bool) -> Option<Cells> {
 fn supported(cmd: &str, ctype: &str, c: &str, reduced: bool) -> bool {
     let Some((kind, _h, t)) = c_params(c) else { return false };
     if !["Z", "Q", "F2", "F3"].contains(&ctype) { return false; }
-    if reduced && (t != 0 || kind == "T" || kind == "HT") { return false; }
+    // "t must be zero for reduced" is judged in the coefficient ring: "-t F2 -c 1,2 -r" has t = 0
+    let t_in_ring = match ctype { "F2" => t.rem_euclid(2), "F3" => t.rem_euclid(3), _ => t };
+    if reduced && (t_in_ring != 0 || kind == "T" || kind == "HT") { return false; }
     match (cmd, kind) {
         (_, "num") => true,
         ("kh", "H") | ("kh", "T") => ctype != "Z", // Z[H], Z[T] are not Euclidean: homology is not offered
@@ -252,7 +251,7 @@ fn gen_case_inner(rng: &mut Rng, idx: u64) -> Value {
     let c = if rng.chance(1, 8) {
         // rarer spellings: integers with sign / leading zero (supported), malformed pairs and
         // unsupported symbols (must be rejected)
-        *rng.pick(&["+1", "01", "-1", ",1", "1,1,1", "1 ,1", "h", "2H", "1x", "1,", "x"])
+        *rng.pick(&["+1", "01", "-1", "1,-1", "2,-1", "-2,-1", "1,2", "-1,1", ",1", "1,1,1", "1 ,1", "h", "2H", "1x", "1,", "x"])
     } else {
         *rng.pick(&["0", "0", "0", "1", "2", "3", "1,1", "0,1", "H", "H", "0,T", "H,T", ""])
     };
@@ -264,7 +263,24 @@ fn gen_case_inner(rng: &mut Rng, idx: u64) -> Value {
     // an enumerated fault must actually be applied: use a command line that reaches the file read
     let (cmd, ctype, c, mirror, reduced) = if enum_plan.is_some() { ("kh", *rng.pick(&["Z", "F2", "Q"]), "0", false, false) } else { (cmd, ctype, c, mirror, reduced) };
     let (link_arg, link_kind): (String, &str) = match kind {
-        0..=2 => (rng.pick(RESOURCE_NAMES).to_string(), "name"),
+        0..=2 => {
+            let name = *rng.pick(RESOURCE_NAMES);
+            // sometimes a FILE with the same name (holding another diagram) lies around: a table name
+            // still means the table entry
+            if rng.chance(1, 5) {
+                let (_, other) = diag::draw(rng, 5);
+                files[name] = json!(pd_to_json(&other).to_string());
+                files[format!("./{name}")] = json!(pd_to_json(&other).to_string());
+            }
+            (name.to_string(), "name")
+        }
+        11 if rng.chance(1, 2) => {
+            // a name of table form that is not in the table stays unknown even if a file of that name exists
+            let name = *rng.pick(&["9_99", "3_9999", "10_999"]);
+            let (_, other) = diag::draw(rng, 5);
+            files[name] = json!(pd_to_json(&other).to_string());
+            (name.to_string(), "unknown")
+        }
         3..=5 => { let (_, pd) = diag::draw(rng, 6); (pd_to_json(&pd).to_string(), "pd") }
         6 => { let (_, pd) = diag::draw(rng, 6); files[SIM_PATH] = json!(pd_to_json(&pd).to_string()); (SIM_PATH.to_string(), "path") }
         7 => (rng.pick(&["99_1", "3_9999", "K3a1", "foo", "/sim/missing.json", "../etc/passwd", "/tmp", "/"]).to_string(), "unknown"),
@@ -382,6 +398,11 @@ fn fault_from_json(v: &Value) -> DiskFaultKind {
 fn pd_text_of(case: &Value, stats: &[rt::RunStats]) -> Option<String> {
     match case["link_kind"].as_str().unwrap() {
         "pd" | "garbage" => Some(case["argv"][2].as_str().unwrap().to_string()),
+        // a table name means the table entry: what counts is what the read of THAT file delivered
+        "name" | "name+diskfault" => {
+            let want = resource_path(case["argv"][2].as_str().unwrap());
+            stats.first().and_then(|s| s.disk_log.iter().rev().find(|(p, _)| *p == want)).and_then(|(_, r)| r.as_ref().ok()).and_then(|b| String::from_utf8(b.clone()).ok())
+        }
         _ => stats.first().and_then(|s| s.disk_log.last()).and_then(|(_, r)| r.as_ref().ok()).and_then(|b| String::from_utf8(b.clone()).ok()),
     }
 }
